@@ -255,8 +255,16 @@ def _attr_escape(text):
 def concretize(p, perm=0, style=None):
     """perm selects the permutation of the statement attributes; style
     carries lexical detail knobs (prefix spelling etc.)."""
-    rnd = random.Random(perm)
+    # perm encodes the spelling plan of the statements (C18): perm // 100
+    #   0 default prefixes; 1 prefix renamed, declared on the element itself;
+    #   2 prefix renamed, declared on an enclosing (dropped) tal:block;
+    #   3 data-tal-* attributes (needs enable_data_attributes)
+    plan = perm // 100
+    rnd = random.Random(perm % 100)
     c = Concrete()
+    c.plan = plan
+    if plan == 2:
+        c.add('<tal:block xmlns:zz="http://xml.zope.org/namespaces/tal">')
     items = p["items"]
     stack = []
     tagidx = 0
@@ -292,7 +300,8 @@ def concretize(p, perm=0, style=None):
                 c.prev_text_tail[i] = None
             c.add("<" + name)
             c.piece[("stag", i)] = "<" + name
-            pre = "" if ns else "tal:"
+            pre = "" if ns else {0: "tal:", 1: "zz:", 2: "zz:", 3: "data-tal-"}[plan]
+            decl_here = plan == 1 and not ns
             stm = []   # (kind, attribute name, [(text or (site, exprtext))...])
 
             def ex(site, e):
@@ -340,6 +349,8 @@ def concretize(p, perm=0, style=None):
             extra = it.get("xattrs", [])
             for xa in extra:
                 stm.append(("x", xa[0], [xa[1]]))
+            if decl_here and stm:
+                stm.append(("x", "xmlns:zz", ["http://xml.zope.org/namespaces/tal"]))
             rnd.shuffle(stm)
             statics = [("s", n) for n in range(1, len(it["sattr"]) + 1)]
             # interleave statics (in order) with the statement attributes
@@ -387,6 +398,8 @@ def concretize(p, perm=0, style=None):
             else:
                 c.add("</" + name + ">")
                 c.piece[("etag", i0)] = "</" + name + ">"
+    if plan == 2:
+        c.add("</tal:block>")
     return c
 
 
